@@ -256,6 +256,8 @@ def op_line(op, dedup):
         return "disc %d" % op[1]
     if op[0] == "pub":
         return "pub %d %d %s %s" % (dedup, op[1], hx(op[2]), hx(op[3]))
+    if op[0] == "bpub":
+        return "bpub %d" % op[1]
     if op[0] == "pipe":
         return pipe_text(op)
     if op[0] == "burst":
@@ -333,10 +335,12 @@ def load_findings():
 
 # ------------------------------------------------------------------ the check
 class C14:
-    def __init__(self, rep, dedup, idle=True):
+    def __init__(self, rep, dedup, idle=True, gate=False):
         self.rep = rep
+        self.rel = False                 # are subscriptions released at the moment a connection is marked as closing?
         self.dedup = 1 if dedup else 0
         self.idle = 1 if idle else 0     # do the (P)UNSUBSCRIBE handlers confirm when the manager returned nothing?
+        self.gate = bool(gate)           # subscriber context: a subscribed connection may only send the subscribe family, PING, QUIT
         self.impl = impl_driver("pubsub")
         self.model = lean_driver("pubsub")
         self.oracle_failures = []     # (kind, detail): the property itself fails on the implementation
@@ -654,6 +658,9 @@ class C14:
         self.tcp_run([(o[0], o[1], "close") if o[0] == "disc" else o for o in self.class_history], "tcp-corpus-classes")
         for mode, held, ops in ending_matrix():
             self.tcp_run(ops, "tcp-ending-%s-%s" % (mode, held))
+        self.tcp_run([("sub", 1, "c", [b"a"]), ("bpub", 1), ("pub", 2, b"a", b"x"), ("sub", 3, "p", [b"a*", b"*"]), ("bpub", 3), ("bpub", 4),
+                      ("pub", 1, b"a", b"from a subscriber"), ("pipe", 3, [("ping",), ("pub", b"a", b"self"), ("ping",)], None),
+                      ("unsub", 1, "c", None), ("bpub", 1), ("pub", 1, b"a", b"y")], "tcp-subscriber-context")
         for tag, ops in pipeline_corpus():
             self.tcp_run(ops, tag)
         for tag, ops in backlog_corpus(tier):
@@ -746,6 +753,8 @@ def frame_event(f):
     """a frame read from a socket -> the event notation of the Lean driver (`showEvent`)"""
     if f == ("s", b"PONG"):
         return "pong"
+    if f[0] == "e" and f[1].startswith(b"ERR Can't execute"):
+        return "refused"       # subscriber context: only (P)SUBSCRIBE / (P)UNSUBSCRIBE / PING / QUIT
     if f[0] == "i":
         return "n:%d" % f[1]
     if f[0] == "a" and len(f[1]) == 3 and f[1][0] in (("b", b"unsubscribe"), ("b", b"punsubscribe")) and f[1][1] == ("nb",) and f[1][2][0] == "i":
@@ -778,7 +787,9 @@ END_MODES = ["close",           # FIN, nothing queued
              "quit-pipelined",  # SUBSCRIBE <ch> + QUIT in one write, then close
              "fin-queued",      # FIN while a message for it is queued (publisher pipelines SLEEP + PUBLISH in one write)
              "rst-queued",      # RST while a message for it is queued (same recipe)
-             "rst-burst"]       # RST in the middle of a pipelined burst of PUBLISHes it does not read
+             "rst-burst",       # RST in the middle of a pipelined burst of PUBLISHes it does not read
+             "kill-exec",       # another client: MULTI / CLIENT KILL ID <it> / PUBLISH / EXEC — closed by the server, then a PUBLISH in the same EXEC
+             "kill-pipelined"]  # another client: CLIENT KILL ID <it> | PUBLISH in one write
 QUEUED_MODES = ("fin-queued", "rst-queued", "rst-burst")
 SLEEP_MS = 250
 BURST = 60
@@ -830,6 +841,8 @@ class Tcp:
         self.ctl = self.srv.client()
         self.aux = self.client(timeout=15.0)
         self.socks = {}
+        self.ids = {}
+        self.keyn = 0
         self.ghosts = []     # subscription sets of connections that went away while subscribed (this history)
 
     def restart(self):
@@ -847,6 +860,8 @@ class Tcp:
             return self.aux
         if c not in self.socks:
             self.socks[c] = self.client()
+            r = self.socks[c].cmd("CLIENT", "ID")           # before it subscribes to anything
+            self.ids[c] = r[1] if r[0] == "i" else None
         return self.socks[c]
 
     def drain(self, cl, timeout=None):
@@ -912,6 +927,7 @@ class Tcp:
             def __init__(self, cl, delay):
                 threading.Thread.__init__(self, daemon=True)
                 self.cl, self.delay, self.chunks, self.stop, self.err = cl, delay, [], threading.Event(), None
+                self.nbytes = 0
 
             def run(self):
                 import select
@@ -931,6 +947,11 @@ class Tcp:
                         return
                     if d:
                         self.chunks.append(d)
+                        self.nbytes += len(d)
+                        if self.nbytes > cap:
+                            # far more than was ever published for this connection: the stream is not what was sent
+                            self.err = OverflowError("%d bytes read, at most %d could be due" % (self.nbytes, cap))
+                            return
                         # the answer to the PING that ends this phase (nothing else on these connections says PONG)
                         if self.stop.is_set() and b"+PONG\r\n" in tail + d:
                             return
@@ -941,6 +962,8 @@ class Tcp:
                             self.err = TimeoutError("no answer to PING within 90 s")
                             return
 
+        cap = 16 * sum(len(m[2]) + len(m[1]) + 64 for m in msgs) + (8 << 20)      # every message, under 16 subscriptions, plus slack
+        overflow = []
         raw = {c: [cl.buf] for c, cl in conns.items()}
         for cl in conns.values():
             cl.buf = b""
@@ -963,6 +986,8 @@ class Tcp:
             for c, r in rs.items():
                 r.join(120)
                 raw[c].extend(r.chunks)
+                if isinstance(r.err, OverflowError):
+                    overflow.append("connection %d: %s" % (c, r.err))
                 if r.err is not None:
                     dropped.setdefault(c, "%s: %s" % (type(r.err).__name__, r.err))
 
@@ -986,6 +1011,10 @@ class Tcp:
         finish({c: rs[c] for c in pubs})                       # every PUBLISH has been executed
         finish({c: r for c, r in rs.items() if c not in pubs})
         finish(phase([c for c in pubs if c not in dropped], {}))   # what reached the publishers after their PONG
+        if overflow:
+            for cl in conns.values():
+                cl.buf = b""
+            raise self.srvmod.ProtocolError("a connection read more bytes than were published for it (repeated stretches): %s" % overflow[0])
         replies, got = {}, {}
         for c, cl in conns.items():
             cl.s.settimeout(cl.timeout)
@@ -1087,6 +1116,28 @@ class Tcp:
             self.aux.read_reply()                    # +OK of SLEEP
             r = self.aux.read_reply()
             inflight.append((payload, r[1] if r[0] == "i" else None))
+        elif mode in ("kill-exec", "kill-pipelined"):
+            # the SERVER closes the connection (CLIENT KILL by another client); the next command of the killer is a PUBLISH
+            payload = b"after-kill"
+            kid = str(self.ids.get(c))
+            if mode == "kill-exec":
+                self.aux.send_raw(self.aux.encode(["MULTI"]) + self.aux.encode(["CLIENT", "KILL", "ID", kid]) +
+                                  self.aux.encode(["PUBLISH", ch, payload]) + self.aux.encode(["EXEC"]))
+                for _ in range(3):
+                    self.aux.read_reply()
+                r = self.aux.read_reply()
+                n = r[1][1][1] if r[0] == "a" and len(r[1]) == 2 and r[1][1][0] == "i" else None
+            else:
+                self.aux.send_raw(self.aux.encode(["CLIENT", "KILL", "ID", kid]) + self.aux.encode(["PUBLISH", ch, payload]))
+                self.aux.read_reply()
+                r = self.aux.read_reply()
+                n = r[1] if r[0] == "i" else None
+            inflight.append((payload, n))
+            try:
+                while True:                      # whatever still reaches the killed connection, up to EOF
+                    during.append(frame_event(cl.read_reply(timeout=2.0)))
+            except Exception:
+                pass
         elif mode == "rst-burst":
             payload = b"x" * 256
             self.aux.send_raw(b"".join(self.aux.encode(["PUBLISH", ch, payload]) for _ in range(BURST)))
@@ -1099,6 +1150,38 @@ class Tcp:
         cl.close()
         self.settle()
         return before, during, presub, inflight
+
+    def blocked_publish(self, c, ch, payload):
+        """`c` sends a command that blocks (BLPOP on a list nobody pushes to, time-out 0); the harness publishes on
+        `ch`; what `c` reads before it is unblocked (LPUSH by the control connection) and after.
+        Returns (frames before the unblock, frames after, reply to the PUBLISH, was the BLPOP answered at once)"""
+        cl = self.sock(c)
+        self.keyn += 1
+        key = b"c14-nolist-%d" % self.keyn
+        cl.send("BLPOP", key, "0")
+        before, after, answered = [], [], False
+        try:
+            before.append(frame_event(cl.read_reply(timeout=0.25)))
+            answered = True
+        except TimeoutError:
+            pass
+        r = self.aux.cmd("PUBLISH", ch, payload)
+        reply = r[1] if r[0] == "i" else None
+        try:
+            while True:
+                before.append(frame_event(cl.read_reply(timeout=0.4)))
+        except TimeoutError:
+            pass
+        if not answered:
+            self.ctl.cmd("LPUSH", key, "v")
+            f = cl.read_reply(timeout=5.0)
+            while not (f[0] == "a" and len(f[1]) == 2 and f[1][0] == ("b", key)):
+                after.append(frame_event(f))
+                f = cl.read_reply(timeout=5.0)
+        else:
+            self.ctl.cmd("DEL", key)
+        after.extend(self.drain(cl))
+        return before, after, reply, answered
 
     def do(self, op):
         """execute one operation; returns ({conn: [events caused by it]}, reply to an AUX publish or None)"""
@@ -1217,6 +1300,14 @@ def pipe_step(check, tcp, i, op, orc, prev, seen, fails, dis, record):
                 for side in "CS":
                     chunks[x][side].append(["pong"] if x == c else [])
             continue
+        if cmd[0] == "pub" and check.gate and orc.count(c) > 0:
+            # subscriber context: refused, nothing is published
+            for x in (1, 2, 3, 4):
+                for side in "CS":
+                    chunks[x][side].append(["refused"] if x == c else [])
+            if record:
+                rep.count("tcp.publish-refused-in-subscriber-context")
+            continue
         if cmd[0] == "sub":
             check.ask_model(op_line(("sub", c, cmd[1], cmd[2]), check.dedup))
             orc.sub(c, cmd[1], cmd[2])
@@ -1284,6 +1375,11 @@ def pipe_step(check, tcp, i, op, orc, prev, seen, fails, dis, record):
                                 fails.append(dict(base, kind="pipeline", shape="order", impl="|".join(map(short, real[:16])),
                                                   want="acknowledgement of command %d before the message of command %d" % (j, q),
                                                   why="a message was delivered before the acknowledgement of an earlier (un)subscription of the same write"))
+                            elif cmds[j][0] in ("pub", "ping") and j in last and last[j] > mpos[k]:
+                                # a subscribed connection's own PUBLISH: its message overtakes the reply to an earlier command
+                                fails.append(dict(base, kind="pipeline", shape="overtakes-earlier-reply", impl="|".join(map(short, real[:16])),
+                                                  want="reply to command %d before the message of command %d" % (j, q),
+                                                  why="the message of a subscribed connection's own PUBLISH came out before the reply to an earlier command of the same write"))
                         k += 1
         elif not (ok_rep and ok_msg):
             dis.append(dict(base, impl="|".join(map(short, real[:16])) or ".", code="|".join(map(short, flat_exp[:16])) or "."))
@@ -1302,11 +1398,64 @@ def pipe_step(check, tcp, i, op, orc, prev, seen, fails, dis, record):
                     dis.append(dict(d, code="|".join(map(short, [e for ch in exp for e in ch][:16])) or "."))
 
 
+def bpub_step(check, tcp, i, op, orc, prev, seen, fails, dis, record):
+    """connection `c` sends a command that blocks (BLPOP on a list nobody pushes to, time-out 0), then the harness
+    publishes on a channel `c` receives on: what is due to `c` must reach it while it is in that state, not when it is
+    unblocked.  (Subscriber context: a connection that holds subscriptions gets an error for the BLPOP instead.)"""
+    rep = check.rep
+    c = op[1]
+    h = orc.held.get(c) or {"c": [], "p": []}
+    on = matching_channels(h, seen)
+    ch = on[0] if on else (sorted(seen)[0] if seen else b"news")
+    payload = b"while-blocked"
+    subscribed = orc.count(c) > 0
+    before, after, reply, answered = tcp.blocked_publish(c, ch, payload)
+    got = {c: [e for e in before + after if e != "refused" and not e.startswith("?:")]}
+    tcp.drain_rest(got)
+    line = "bpub %d %s" % (c, hx(ch))
+    m = split_cs(check.ask_model(op_line(("pub", AUX, ch, payload), check.dedup)), ("C", "S"))
+    seen.add(ch)
+    n_c, n_s = len(parse_dels(m["C"])), len(parse_dels(m["S"]))
+    base = {"i": i, "op": line, "layer": "tcp"}
+    if record:
+        rep.evaluations += 1
+        rep.count("tcp.op.bpub")
+        rep.count("tcp.bpub.%s.%s" % ("subscribed" if subscribed else "not-subscribed", "refused" if "refused" in before else "blocked" if not answered else "answered"))
+        rep.nontrivial(("tcp-bpub", subscribed, answered, min(n_s, 3)))
+    if reply != n_s:
+        fails.append(dict(base, kind="publish", conn=AUX, impl="n:%s" % reply, want="n:%d" % n_s, shape="other",
+                          why="PUBLISH reply is not the number of deliveries to the clients subscribed at that moment"))
+    elif reply != n_c:
+        dis.append(dict(base, conn=AUX, impl="n:%s" % reply, code="n:%d" % n_c))
+    late = [e for e in after if is_msg(e)]
+    if late:
+        fails.append(dict(base, kind="stream", conn=c, shape="deferred-while-blocked", impl="before the unblock: %s; after: %s" % ("|".join(before) or ".", "|".join(map(short, late))),
+                          want="delivered when published",
+                          why="PUBLISH counted a delivery to connection %d, which had sent a blocking command: it read the message only after it was unblocked" % c))
+    if check.gate and subscribed and "refused" not in before:
+        dis.append(dict(base, conn=c, impl="BLPOP from a subscribed connection was %s" % ("answered" if answered else "accepted (it blocked)"), code="refused (subscriber context)"))
+    if not check.gate and "refused" in before:
+        dis.append(dict(base, conn=c, impl="refused", code="executed (no subscriber context in the source)"))
+    for x in (1, 2, 3, 4):
+        nc, ns = recv_diff(check, prev, x)
+        real = sorted(got.get(x, []))
+        if real != sorted(ns):
+            fails.append(dict(base, kind="stream", conn=x, shape="other", impl="|".join(map(short, got.get(x, [])[:8])) or ".", want="|".join(map(short, ns[:8])) or ".",
+                              why="frames read by connection %d differ from one per matching subscription" % x))
+        elif real != sorted(nc):
+            dis.append(dict(base, conn=x, impl="|".join(map(short, got.get(x, [])[:8])) or ".", code="|".join(map(short, nc[:8])) or "."))
+
+
 def burst_step(check, tcp, i, op, orc, prev, seen, fails, dis, record, bidx):
     """a backlog: many / large messages from several publishers while the `slow` connections read nothing;
     afterwards every stream must parse and be the model's per-subscriber sequence, byte for byte"""
     rep = check.rep
     slow, specs = set(op[1]), op[2]
+    if check.gate:
+        # subscriber context: a connection that holds subscriptions cannot publish
+        specs = [x for x in specs if x[0] == AUX or orc.count(x[0]) == 0]
+        if not specs:
+            return bidx
     line = burst_text(op)
     msgs, lines = [], []
     for k, (pc, ch, size) in enumerate(specs):
@@ -1466,6 +1615,7 @@ def tcp_history(check, tcp, ops, record=True):
             line0 = op_line(op0, check.dedup)
             skip = set()
             inflight, lines, reply, probe = [], [], None, len(op) > 4
+            kill, kill_pre, refuse = False, [], False
             try:
                 if op[0] == "end":
                     c, mode, ch = op[1], op[2], op[3]
@@ -1476,10 +1626,19 @@ def tcp_history(check, tcp, ops, record=True):
                     if presub is not None and had:
                         lines.append(op_line(("sub", c, "c", [presub]), check.dedup))
                         orc.sub(c, "c", [presub])
-                    for payload, _ in inflight:
-                        lines.append(op_line(("pub", AUX, ch, payload), check.dedup))
-                        skip.add(c)          # what was queued for the dying connection is lost with it
-                    lines.append("disc %d" % c)
+                    kill = mode in ("kill-exec", "kill-pipelined") and had
+                    kill_pre = ["m:%s:%s" % (hx(ch), hx(inflight[0][0])) if d[1] is None else "p:%s:%s:%s" % (hx(d[1]), hx(ch), hx(inflight[0][0]))
+                                for d in orc.deliveries(ch) if d[0] == c] if kill else []
+                    if kill:
+                        # the server closed the connection BEFORE the killer's PUBLISH: close is the event after which
+                        # nothing is delivered and nothing counted
+                        lines.append("disc %d" % c)
+                        lines.append(op_line(("pub", AUX, ch, inflight[0][0]), check.dedup))
+                    else:
+                        for payload, _ in inflight:
+                            lines.append(op_line(("pub", AUX, ch, payload), check.dedup))
+                            skip.add(c)          # what was queued for the dying connection is lost with it
+                        lines.append("disc %d" % c)
                     h = orc.held.get(c)
                     if h and (h["c"] or h["p"]):
                         tcp.ghosts.append({"c": list(h["c"]), "p": list(h["p"])})
@@ -1494,10 +1653,18 @@ def tcp_history(check, tcp, ops, record=True):
                 elif op[0] == "burst":
                     state["bidx"] = burst_step(check, tcp, i, op, orc, prev, seen, fails, dis, record, state["bidx"])
                     continue
+                elif op[0] == "bpub":
+                    bpub_step(check, tcp, i, op, orc, prev, seen, fails, dis, record)
+                    continue
                 else:
                     got, reply = tcp.do(op)
                     line = op_line(op, check.dedup)
-                    lines.append(line)
+                    refuse = check.gate and op[0] == "pub" and op[1] != AUX and orc.count(op[1]) > 0
+                    if refuse:
+                        if record:
+                            rep.count("tcp.publish-refused-in-subscriber-context")
+                    else:
+                        lines.append(line)
             except (TimeoutError, tcp.srvmod.Closed, tcp.srvmod.ProtocolError, OSError) as e:
                 if isinstance(e, tcp.srvmod.ProtocolError):
                     fails.append({"i": i, "kind": "stream", "shape": "unparsable", "op": line0, "impl": "%s: %s" % (type(e).__name__, e), "layer": "tcp",
@@ -1516,6 +1683,13 @@ def tcp_history(check, tcp, ops, record=True):
             if op[0] == "end":
                 # publishes in flight while the connection was going away: the reply may or may not count it
                 pubs = [split_cs(a, ("C", "S")) for l, a in zip(lines, answers) if l.startswith("pub ")]
+                if kill:
+                    n_r, n_s = inflight[0][1], len(parse_dels(pubs[0]["S"]))
+                    if n_r != n_s:
+                        fails.append(dict(base0, kind="publish", impl="n:%s" % n_r, want="n:%d" % n_s,
+                                          shape="closing-subscriber-counted" if n_r == n_s + len(kill_pre) else "other",
+                                          why="a PUBLISH executed after the server had closed connection %d (CLIENT KILL) still counts it" % op[1]))
+                    pubs, inflight = [], []
                 for (payload, n_r), m in zip(inflight, pubs):
                     sd = parse_dels(m["S"])
                     lo, hi = sum(1 for d in sd if d[0] != op[1]), len(sd)
@@ -1531,10 +1705,10 @@ def tcp_history(check, tcp, ops, record=True):
                 want_acks = orc.unsub(op[1], op[2], op[3])
                 if op[3] is None and not want_acks:
                     want_acks = [(None, orc.count(op[1]), False)]     # nil name, remaining count
-            elif op[0] == "pub":
+            elif op[0] == "pub" and not refuse:
                 seen.add(op[2])
             gmax = 0
-            if op[0] == "pub":
+            if op[0] == "pub" and not refuse:
                 gmax = sum((1 if op[2] in g["c"] else 0) + sum(1 for p in g["p"] if spec_glob(p, op[2])) for g in tcp.ghosts)
             if op[0] == "pub" and op[1] == AUX:
                 # the harness's own publisher: its reply is compared here (it has no stream in the model)
@@ -1564,6 +1738,8 @@ def tcp_history(check, tcp, ops, record=True):
                 prev[c] = (ec, es)
                 if c in skip:
                     continue
+                if refuse and c == op[1]:
+                    new_c, new_s = new_c + ["refused"], new_s + ["refused"]
                 real = got.get(c, [])
                 if record:
                     rep.evaluations += 1
@@ -1587,6 +1763,8 @@ def tcp_history(check, tcp, ops, record=True):
                     if op[0] == "pub" and len(real_f) == 1 and len(spec_f) >= 2 and real_f[0] in spec_f and \
                             (real_f[0].startswith("m:") or not any(e.startswith("m:") for e in spec_f)):
                         shape = "one-per-connection"
+                    if kill and c == op[1] and not spec_f and real_f == sorted(kill_pre):
+                        shape = "closing-subscriber-delivered"      # it read, before EOF, what was published after the server closed it
                     fails.append(dict(base, kind="stream", impl="|".join(real[:8]) or ".", want="|".join(new_s[:8]) or ".", shape=shape,
                                       why="frames read by connection %d differ from one per matching subscription / the acknowledgements due" % c))
                 if ints_r != ints_s:
@@ -1610,6 +1788,8 @@ def tcp_history(check, tcp, ops, record=True):
                 if not ok_c and check.dedup and sorted(e.split(":")[0] for e in real_f) == sorted(e.split(":")[0] for e in code_f):
                     # which matching pattern a de-duplicated pmessage names depends on hash-map order
                     ok_c = all(e in spec_f for e in real_f)
+                if not ok_c and kill and c == op[1] and real_f == sorted(kill_pre) and not check.rel:
+                    ok_c = True       # the lag between marking and removal is connection handling (switch releaseAtClose), exhibited above
                 if not ok_c:
                     dis.append(dict(base, impl="|".join(real[:8]) or ".", code="|".join(new_c[:8]) or "."))
                 if ints_r != ints_c:
@@ -1671,6 +1851,8 @@ def gen_tcp_history(r, n_ops):
             out.append(gen_pipe(r, r.choice([1, 2, 3, 4]), u["chans"], u["pats"]))
         elif k < 17:
             out.append(gen_burst(r, u["chans"]))
+        elif k < 20:
+            out.append(("bpub", r.choice([1, 2, 3, 4])))
         out.append((o[0], o[1], r.choice(END_MODES)) if o[0] == "disc" else o)
     return out
 
@@ -1741,6 +1923,10 @@ def classify(kind, det, findings):
             return f
         if f.get("match") == "dead-subscriber-counted" and kind == "publish" and det.get("shape") == "dead-subscriber-counted":
             return f
+        if f.get("match") == "closing-subscriber" and det.get("shape") in ("closing-subscriber-counted", "closing-subscriber-delivered"):
+            return f
+        if f.get("match") == "no-subscriber-context" and det.get("shape") in ("deferred-while-blocked", "overtakes-earlier-reply"):
+            return f
     return None
 
 
@@ -1801,11 +1987,15 @@ def main(tier, seed):
     build_server()
     facts = source_facts()
     dedup, keeps_dead, idle = facts["dedup"], facts["keeps_dead"], facts["acks_when_idle"]
+    rel, gate = facts["releases_at_close"], facts["subscriber_gate"]
     rep.extra["source_acks_when_idle"] = idle
+    rep.extra["source_releases_at_close"] = rel
+    rep.extra["source_subscriber_gate"] = gate
     rep.extra["source_dedup"] = dedup
     rep.extra["source_keeps_dead_subscribers"] = keeps_dead
     findings = load_findings()
-    c = C14(rep, True if dedup is None else dedup, True if idle is None else idle)
+    c = C14(rep, True if dedup is None else dedup, True if idle is None else idle, bool(gate))
+    c.rel = bool(rel)
     try:
         c.run(seed, tier)
         rep.traces_validated = rep.evaluations
@@ -1823,7 +2013,9 @@ def main(tier, seed):
             rep.known(fid, f["what"])
         for f in findings:
             fixed_in_source = (f.get("match") == "publish-one-delivery-per-connection" and dedup is False) or \
-                              (f.get("match") == "dead-subscriber-counted" and keeps_dead is False)
+                              (f.get("match") == "dead-subscriber-counted" and keeps_dead is False) or \
+                              (f.get("match") == "closing-subscriber" and rel is True) or \
+                              (f.get("match") == "no-subscriber-context" and gate is True)
             if f["id"] not in seen_known and not fixed_in_source:
                 rep.violation("known finding %s no longer reproduces: model/known-findings file is stale" % f["id"],
                               {"finding": f, "obligation": f.get("lean_witness")}, no_input=True)
@@ -1865,7 +2057,8 @@ def replay(path):
     build_harness("pubsub")
     facts = source_facts()
     dedup, idle = facts["dedup"], facts["acks_when_idle"]
-    c = C14(rep, True if dedup is None else dedup, True if idle is None else idle)
+    c = C14(rep, True if dedup is None else dedup, True if idle is None else idle, bool(facts["subscriber_gate"]))
+    c.rel = bool(facts["releases_at_close"])
     try:
         if rp.get("ops") and isinstance(rp["ops"][0], list):
             layer = rp.get("layer", "inproc")
